@@ -17,17 +17,71 @@ def num_folds(cc):
     return max(l.num_folds for l in cc.layers)
 
 
-def one_case(rep, cs, seed, i):
-    rng = rng_for(seed, PID, i)
-    monotone = rng.random() < 0.5
-    cplx = (not monotone) and rng.random() < 0.15
-    kinds = ["emb", "poly"] if cplx else KINDS
-    if rng.random() < 0.2:
-        kinds = [rng.choice(kinds)]
-    o = gen.random_opts(rng, kinds=kinds, monotone=monotone, cplx=cplx)
-    sc, g = gen.gen_circuit(rng, **o)
+class _G:
+    pass
+
+
+def hetero_circuit(rng):
+    """input layers of one class, width and parameter shape in the same frontier that differ only in a hyper-parameter which
+    no parameter shape reflects (Binomial total_count, ConstantValue log_space): folding must keep them apart"""
+    from cirkit.symbolic import layers as L
+    from cirkit.symbolic import parameters as P
+    from cirkit.symbolic.circuit import Circuit
+    from cirkit.utils.scope import Scope
+    K = rng.choice([1, 2, 3])
+    n = rng.choice([2, 3, 4])
+    counts = [rng.choice([1, 2, 3, 4, 5]) for _ in range(n)]
+    if len(set(counts)) == 1:
+        counts[0] += 1
+    use_logits = rng.random() < 0.5
+    g = _G()
+    g.doms = {}
+    layers, ins, parts = [], {}, []
+    for v, tc in enumerate(counts):
+        g.doms[v] = ("disc", tc + 1)
+        if use_logits:
+            bl = L.BinomialLayer(Scope([v]), K, total_count=tc, logits=P.Parameter.from_input(gen.tensor(gen.dy_array(rng, (K,), -4, 4))))
+        else:
+            bl = L.BinomialLayer(Scope([v]), K, total_count=tc, probs=P.Parameter.from_input(gen.tensor(gen.dy_array(rng, (K,), 1, 7, 8))))
+        parts.append(bl)
+    nconst = rng.choice([0, 2, 2, 3])
+    for j in range(nconst):
+        ls = bool(j % 2) if rng.random() < 0.8 else bool((j + 1) % 2)
+        lo, hi = (-3, 3) if ls else (1, 9)
+        parts.append(L.ConstantValueLayer(K, log_space=ls, value=P.Parameter.from_input(gen.tensor(gen.dy_array(rng, (K,), lo, hi, 4)))))
+    rng.shuffle(parts)
+    layers.extend(parts)
+    pl = L.HadamardLayer(K, arity=len(parts))
+    layers.append(pl)
+    ins[pl] = parts
+    Ko = rng.choice([1, 2])
+    sl = L.SumLayer(K, Ko, arity=1, weight=P.Parameter.from_input(gen.tensor(gen.dy_array(rng, (Ko, K), 1, 8))))
+    layers.append(sl)
+    ins[sl] = [pl]
+    g.desc = {"family": "hetero-hyperparameters", "total_counts": counts, "constants": nconst, "logits": use_logits, "K": K,
+              "kinds": ["bin"] * n, "sums": 1, "prods": 1, "arity": [1], "nout": 1}
+    return Circuit(layers, ins, [sl]), g
+
+
+def one_case(rep, cs, seed, i, family=None):
+    if family == "hetero-hyperparameters":
+        rng = rng_for(seed, PID + "het", i)
+        sc, g = hetero_circuit(rng)
+        monotone, cplx = True, False
+        o = {"varset": "dense"}
+    else:
+        rng = rng_for(seed, PID, i)
+        monotone = rng.random() < 0.5
+        cplx = (not monotone) and rng.random() < 0.15
+        kinds = ["emb", "poly"] if cplx else KINDS
+        if rng.random() < 0.2:
+            kinds = [rng.choice(kinds)]
+        o = gen.random_opts(rng, kinds=kinds, monotone=monotone, cplx=cplx, heads=rng.random() < 0.25)
+        sc, g = gen.gen_circuit(rng, **o)
     sem = pick_semiring(rng, monotone, cplx)
     fold, opt = rng.choice(evalc.FLAGS)
+    if family:
+        fold = True if rng.random() < 0.8 else fold
     desc = {"i": i, "seed": seed, "sem": sem, "fold": fold, "opt": opt, **g.desc}
     rep.count("semiring:" + sem)
     rep.count(f"flags:{int(fold)}{int(opt)}")
@@ -98,9 +152,11 @@ def run(rep, tier, seed, replay=None):
     cs = CaseSet(rep, PID)
     if replay is not None:
         c = replay["replay"].get("case", {})
-        one_case(rep, cs, c.get("seed", seed), c.get("i", 0))
+        one_case(rep, cs, c.get("seed", seed), c.get("i", 0), family=c.get("family"))
         cs.run()
         return
     for i in range(n):
         one_case(rep, cs, seed, i)
+    for i in range(max(16, n // 8)):
+        one_case(rep, cs, seed, i, family="hetero-hyperparameters")
     cs.run(shard=max(6, 120 // 14))  # shard size of the quick tier: thorough runs use more files, not longer ones
